@@ -1,0 +1,20 @@
+// SPDX-FileCopyrightText: 2026 The Pion community <https://pion.ly>
+// SPDX-License-Identifier: MIT
+
+//go:build verif
+
+package twcc
+
+// VerifArrivalMapState exposes the state of the recorder's packetArrivalTimeMap
+// for the verification harness: beginSequenceNumber, endSequenceNumber and a
+// copy of the circular buffer arrivalTimes (its length is the capacity; nil
+// while the buffer is not allocated).
+func (r *Recorder) VerifArrivalMapState() (begin, end int64, slots []int64) {
+	m := &r.arrivalTimeMap
+	if m.arrivalTimes != nil {
+		slots = make([]int64, len(m.arrivalTimes))
+		copy(slots, m.arrivalTimes)
+	}
+
+	return m.beginSequenceNumber, m.endSequenceNumber, slots
+}
